@@ -175,6 +175,27 @@ CHECKS = {
         "pickle._Unpickler over stubs for values.",
         "DESIGN.md 3/C18",
     ),
+    "C11": (
+        "Hypothesis RuleBasedStateMachine over activate/deactivate/construct/probe histories; "
+        "two-variable reference model + deep-snapshot invariant",
+        "Stateful generated search: after every step of a generated history the allowed/blocked "
+        "outcome of probes through the four hooked entry points and through directly constructed "
+        "unpicklers must match the model (BASE + current additions / own additions), blocked "
+        "probes must not run the sink, and ML_ALLOWLIST must deep-equal its import-time snapshot.",
+        "Trusted: the model (20 lines) and the harness reset of hooks/allowlist between histories.",
+        "DESIGN.md 3/C11",
+    ),
+    "C12": (
+        "Hypothesis RuleBasedStateMachine over arm/activate/remove/enter/leave/leave-by-exception/"
+        "probe histories; explicit lifecycle model with identity and behavioural invariants",
+        "Stateful generated search: a model of the four pickle bindings and a stack of context "
+        "snapshots is stepped with the real hooks; after every step bindings the model calls "
+        "original must be the very function objects captured before fickling was imported, and "
+        "bindings it calls protected must refuse a flagged probe without running it.",
+        "Trusted: the lifecycle model; activate/remove inside an open context are outside the "
+        "generated alphabet (their meaning is not fixed by the statement).",
+        "DESIGN.md 3/C12",
+    ),
 }
 
 PENDING = {}
